@@ -240,4 +240,562 @@ theorem uncurry_core {α} (outer inner : List Param) (nres : Nat) (r : Bool) (g 
       simp [names, uncurrySig, List.zip_append, hlen1]
     simpa [hz] using hx
 
+/-! ### the names the generator produces -/
+
+theorem toDigits_inj {i j : Nat} (h : Nat.toDigits 10 i = Nat.toDigits 10 j) : i = j := by
+  have := congrArg (fun l => Nat.ofDigitChars 10 l 0) h
+  simpa [Nat.ofDigitChars_ten_toDigits] using this
+
+theorem genName_inj {pre : Name} {i j : Nat} (h : genName pre i = genName pre j) : i = j :=
+  toDigits_inj (List.append_cancel_left h)
+
+theorem genName_prefix (pre : Name) (i : Nat) : pre.isPrefixOf (genName pre i) = true := by
+  simp [genName, List.isPrefixOf_iff_prefix]
+
+theorem genName_length (pre : Name) (i : Nat) : pre.length < (genName pre i).length := by
+  have := @Nat.length_toDigits_pos 10 i
+  simp [genName]; omega
+
+theorem usable_of_length {n : Name} (h : 2 ≤ n.length) : usable n = true := by
+  match n, h with
+  | a :: b :: r, _ => simp [usable, blank]
+
+theorem usable_genName {pre : Name} (hpre : 1 ≤ pre.length) (i : Nat) : usable (genName pre i) = true :=
+  usable_of_length (by have := genName_length pre i; omega)
+
+
+
+/-- where the names of a renamed list come from -/
+theorem mem_names_renameFrom (pre : Name) : ∀ (ps : List Param) (i : Nat) (n : Name),
+    n ∈ names (renameFrom pre i ps) →
+      (∃ j, i ≤ j ∧ n = genName pre j) ∨ (n ∈ names ps ∧ n ≠ blank ∧ pre.isPrefixOf n = false)
+  | [], _, _, h => by simp [renameFrom, names] at h
+  | p :: r, i, n, h => by
+    simp only [renameFrom, names_cons, List.mem_cons] at h
+    rcases h with h | h
+    · by_cases c : (p.name == blank || pre.isPrefixOf p.name) = true
+      · rw [if_pos c] at h; exact Or.inl ⟨i, Nat.le_refl _, h⟩
+      · rw [if_neg c] at h
+        simp only [Bool.or_eq_true, beq_iff_eq, not_or, Bool.not_eq_true] at c
+        subst h
+        exact Or.inr ⟨List.mem_cons_self .., c.1, c.2⟩
+    · rcases mem_names_renameFrom pre r (i + 1) n h with ⟨j, hj, e⟩ | ⟨hm, h1, h2⟩
+      · exact Or.inl ⟨j, by omega, e⟩
+      · exact Or.inr ⟨List.mem_cons_of_mem _ hm, h1, h2⟩
+
+/-- `rename` yields pairwise distinct names (given Go's guarantee that the names which can be
+referred to are distinct, and that no name is missing in the result) -/
+theorem nodup_renameFrom (pre : Name) : ∀ (ps : List Param) (i : Nat),
+    ((names ps).filter usable).Nodup → (∀ n ∈ names (renameFrom pre i ps), n ≠ []) →
+      (names (renameFrom pre i ps)).Nodup
+  | [], _, _, _ => by simp [renameFrom, names]
+  | p :: r, i, hv, hne => by
+    have hvr : ((names r).filter usable).Nodup :=
+      hv.sublist ((List.sublist_cons_self _ _).filter _)
+    have hner : ∀ n ∈ names (renameFrom pre (i + 1) r), n ≠ [] := fun n hn =>
+      hne n (by simp only [renameFrom, names_cons]; exact List.mem_cons_of_mem _ hn)
+    have ih := nodup_renameFrom pre r (i + 1) hvr hner
+    simp only [renameFrom, names_cons]
+    refine List.nodup_cons.2 ⟨fun hm => ?_, ih⟩
+    by_cases c : (p.name == blank || pre.isPrefixOf p.name) = true
+    · rw [if_pos c] at hm
+      rcases mem_names_renameFrom pre r (i + 1) _ hm with ⟨j, hj, e⟩ | ⟨_, _, h2⟩
+      · have := genName_inj e; omega
+      · simp [genName_prefix] at h2
+    · have hp0 : p.name ≠ [] := hne p.name (by
+        simp only [renameFrom, names_cons, if_neg c]; exact List.mem_cons_self ..)
+      rw [if_neg c] at hm
+      simp only [Bool.or_eq_true, beq_iff_eq, not_or, Bool.not_eq_true] at c
+      rcases mem_names_renameFrom pre r (i + 1) _ hm with ⟨j, _, e⟩ | ⟨hmr, _, _⟩
+      · have := genName_prefix pre j
+        rw [← e, c.2] at this; cases this
+      · have hus : usable p.name = true := by simp [usable, hp0, c.1]
+        simp only [names_cons, List.filter_cons, hus, if_true] at hv
+        exact (List.nodup_cons.1 hv).1 (List.mem_filter.2 ⟨hmr, hus⟩)
+
+
+
+theorem mem_names_positionalFrom (pre : Name) : ∀ (ps : List Param) (i : Nat) (n : Name),
+    n ∈ names (positionalFrom pre i ps) → ∃ j, i ≤ j ∧ n = genName pre j
+  | [], _, _, h => by simp [positionalFrom, names] at h
+  | p :: r, i, n, h => by
+    simp only [positionalFrom, names_cons, List.mem_cons] at h
+    rcases h with h | h
+    · exact ⟨i, Nat.le_refl _, h⟩
+    · obtain ⟨j, hj, e⟩ := mem_names_positionalFrom pre r (i + 1) n h
+      exact ⟨j, by omega, e⟩
+
+theorem nodup_positionalFrom (pre : Name) : ∀ (ps : List Param) (i : Nat),
+    (names (positionalFrom pre i ps)).Nodup
+  | [], _ => by simp [positionalFrom, names]
+  | p :: r, i => by
+    simp only [positionalFrom, names_cons]
+    refine List.nodup_cons.2 ⟨fun hm => ?_, nodup_positionalFrom pre r (i + 1)⟩
+    obtain ⟨j, hj, e⟩ := mem_names_positionalFrom pre r (i + 1) _ hm
+    have := genName_inj e; omega
+
+theorem length_renameFrom (pre : Name) : ∀ (ps : List Param) (i : Nat), (renameFrom pre i ps).length = ps.length
+  | [], _ => rfl
+  | _ :: r, i => by simp [renameFrom, length_renameFrom pre r (i + 1)]
+
+theorem length_positionalFrom (pre : Name) : ∀ (ps : List Param) (i : Nat), (positionalFrom pre i ps).length = ps.length
+  | [], _ => rfl
+  | _ :: r, i => by simp [positionalFrom, length_positionalFrom pre r (i + 1)]
+
+theorem length_effParams (cfg : Cfg) (avoid : List Name) (pre : Name) (ps : List Param) :
+    (effParams cfg avoid pre ps).length = ps.length := by
+  unfold effParams renameBlankWith
+  dsimp only
+  split <;> split <;> simp [length_renameFrom, length_positionalFrom]
+
+/-- generated names are never one of the (short) binder names the generator uses itself -/
+theorem genName_not_avoid {pre : Name} {avoid : List Name} (h : ∀ n ∈ avoid, n.length ≤ pre.length) (i : Nat) :
+    genName pre i ∉ avoid := fun hm => by
+  have := h _ hm; have := genName_length pre i; omega
+
+theorem namesOk_positional {pre : Name} {avoid : List Name} (hpre : 1 ≤ pre.length)
+    (hav : ∀ n ∈ avoid, n.length ≤ pre.length) (ps : List Param) (i : Nat) :
+    NamesOk avoid (positionalFrom pre i ps) := by
+  refine ⟨fun n hn => ?_, nodup_positionalFrom pre ps i, fun n hn => ?_⟩
+  · obtain ⟨j, _, e⟩ := mem_names_positionalFrom pre ps i n hn
+    exact e ▸ usable_genName hpre j
+  · obtain ⟨j, _, e⟩ := mem_names_positionalFrom pre ps i n hn
+    exact e ▸ genName_not_avoid hav j
+
+/-- Go's guarantee about any function type: the parameter names that can be referred to are pairwise
+distinct -/
+def ValidSig (ps : List Param) : Prop := ((names ps).filter usable).Nodup
+
+/-- the renamed list is fine as soon as it has no missing name and no captured binder -/
+theorem namesOk_renameBlankWith {pre : Name} {avoid : List Name} (hpre : 1 ≤ pre.length)
+    (ps : List Param) (hv : ValidSig ps)
+    (hne : ∀ n ∈ names (renameBlankWith pre ps), n ≠ [])
+    (hna : ∀ n ∈ names (renameBlankWith pre ps), n ∉ avoid) :
+    NamesOk avoid (renameBlankWith pre ps) := by
+  unfold renameBlankWith at hne hna ⊢
+  by_cases hb : hasBlank ps = true
+  · rw [if_pos hb] at hne hna ⊢
+    refine ⟨fun n hn => ?_, nodup_renameFrom pre ps 0 hv hne, hna⟩
+    rcases mem_names_renameFrom pre ps 0 n hn with ⟨j, _, e⟩ | ⟨_, h1, _⟩
+    · exact e ▸ usable_genName hpre j
+    · simp [usable, hne n hn, h1]
+  · rw [if_neg hb] at hne hna ⊢
+    have hnb : ∀ n ∈ names ps, n ≠ blank := by
+      intro n hn e
+      apply hb
+      simp only [hasBlank, List.any_eq_true, beq_iff_eq]
+      obtain ⟨p, hp, rfl⟩ := List.mem_map.1 hn
+      exact ⟨p, hp, e⟩
+    have hus : ∀ n ∈ names ps, usable n = true := fun n hn => by simp [usable, hne n hn, hnb n hn]
+    refine ⟨hus, ?_, hna⟩
+    have : (names ps).filter usable = names ps := List.filter_eq_self.2 hus
+    exact this ▸ hv
+
+
+
+theorem mem_names_renameBlankWith {pre : Name} {ps : List Param} {n : Name}
+    (h : n ∈ names (renameBlankWith pre ps)) : (∃ j, n = genName pre j) ∨ n ∈ names ps := by
+  unfold renameBlankWith at h
+  split at h
+  · rcases mem_names_renameFrom pre ps 0 n h with ⟨j, _, e⟩ | ⟨hm, _, _⟩
+    · exact Or.inl ⟨j, e⟩
+    · exact Or.inr hm
+  · exact Or.inr h
+
+/-- the side condition under which the current generator's wrappers are right; each clause
+disappears when the corresponding defect is repaired -/
+structure Side (cfg : Cfg) (avoid : List Name) (ps : List Param) : Prop where
+  named : cfg.unnamedFixed = true ∨ ∀ n ∈ names ps, n ≠ []
+  nocapture : cfg.shadowFixed = true ∨ ∀ n ∈ names ps, n ∉ avoid
+
+theorem effParams_namesOk (cfg : Cfg) {pre : Name} {avoid : List Name} (hpre : 1 ≤ pre.length)
+    (hav : ∀ n ∈ avoid, n.length ≤ pre.length) (ps : List Param) (hv : ValidSig ps)
+    (hs : Side cfg avoid ps) : NamesOk avoid (effParams cfg avoid pre ps) := by
+  unfold effParams
+  dsimp only
+  by_cases hf : needsFix cfg avoid (renameBlankWith pre ps) = true
+  · rw [if_pos hf]; exact namesOk_positional hpre hav ps 0
+  · rw [if_neg hf]
+    simp only [needsFix, Bool.or_eq_true, Bool.and_eq_true, not_or, not_and, Bool.not_eq_true] at hf
+    refine namesOk_renameBlankWith hpre ps hv (fun n hn e => ?_) (fun n hn hm => ?_)
+    · rcases hs.named with hu | hnamed
+      · have := hf.1 hu
+        simp only [List.any_eq_false, beq_iff_eq] at this
+        obtain ⟨p, hp, rfl⟩ := List.mem_map.1 hn
+        exact this p hp e
+      · rcases mem_names_renameBlankWith hn with ⟨j, ej⟩ | hm
+        · have := genName_length pre j; rw [← ej, e] at this; simp at this
+        · exact hnamed n hm e
+    · rcases hs.nocapture with hsf | hnc
+      · have := hf.2 hsf
+        simp only [List.any_eq_false] at this
+        obtain ⟨p, hp, rfl⟩ := List.mem_map.1 hn
+        exact this p hp (by simpa using hm)
+      · rcases mem_names_renameBlankWith hn with ⟨j, ej⟩ | hm'
+        · exact genName_not_avoid hav j (ej ▸ hm)
+        · exact hnc n hm' hm
+
+
+/-! ### the wrappers as emitted, against the specification -/
+open Goderive
+
+theorem runCurry_eq {α} (cfg : Cfg) (ps : List Param) (f : List α → List α) (a : α) (rest : List α)
+    (hlen : ps.length = rest.length + 1)
+    (hok : NamesOk [fName] (effParams cfg [fName] paramPrefix ps)) :
+    runCurry cfg ps f a rest = Spec.currySpec f a rest := by
+  unfold runCurry curryTm
+  have hl := length_effParams cfg [fName] paramPrefix ps
+  generalize effParams cfg [fName] paramPrefix ps = e at hok hl ⊢
+  match e, hl with
+  | p :: ps', hl =>
+    have : ps'.length = rest.length := by simp at hl; omega
+    simp only [currySig, List.take_succ_cons, List.take_zero, List.drop_succ_cons, List.drop_zero]
+    rw [curry_core p ps' 1 _ (logging f) a rest this hok]
+    simp [logging, Spec.currySpec, Spec.callOnce]
+  | [], hl => simp at hl; omega
+
+theorem runFlip_eq {α} (cfg : Cfg) (ps : List Param) (f : List α → List α) (a b : α) (rest : List α)
+    (hlen : ps.length = rest.length + 2)
+    (hok : NamesOk [fName] (effParams cfg [fName] paramPrefix ps)) :
+    runFlip cfg ps f (b :: a :: rest) = Spec.flipSpec f (b :: a :: rest) := by
+  unfold runFlip flipTm
+  have hl := length_effParams cfg [fName] paramPrefix ps
+  generalize effParams cfg [fName] paramPrefix ps = e at hok hl ⊢
+  match e, hl with
+  | p :: q :: ps', hl =>
+    have : ps'.length = rest.length := by simp at hl; omega
+    rw [flip_core p q ps' 1 _ (logging f) a b rest this hok]
+    simp [logging, Spec.flipSpec, Spec.callOnce]
+  | [_], hl => simp at hl; omega
+  | [], hl => simp at hl; omega
+
+theorem runApply_eq {α} (cfg : Cfg) (ps : List Param) (f : List α → List α) (last : α) (others : List α)
+    (hlen : ps.length = others.length + 1)
+    (hok : NamesOk [fName] (effParams cfg [fName] paramPrefix ps)) :
+    runApply cfg ps f last others = Spec.applySpec f last others := by
+  unfold runApply applyTm
+  have hl := length_effParams cfg [fName] paramPrefix ps
+  generalize effParams cfg [fName] paramPrefix ps = e at hok hl ⊢
+  have hne : e ≠ [] := by intro h; subst h; simp at hl; omega
+  obtain ⟨o, l, rfl⟩ : ∃ o l, e = o ++ [l] := ⟨e.dropLast, e.getLast hne, (List.dropLast_concat_getLast hne).symm⟩
+  have : o.length = others.length := by simp at hl; omega
+  simp only [applySig_append]
+  rw [apply_core o l 1 _ (logging f) last others this hok]
+  simp [logging, Spec.applySpec, Spec.callOnce]
+
+
+
+theorem length_uncurryParams (cfg : Cfg) (outer inner : List Param) :
+    (uncurryParams cfg outer inner).1.length = outer.length ∧
+    (uncurryParams cfg outer inner).2.length = inner.length := by
+  unfold uncurryParams
+  dsimp only
+  split <;> simp [length_effParams, length_positionalFrom]
+
+theorem runUncurry_eq {α} (cfg : Cfg) (outer inner : List Param) (f : List α → List α) (a : α) (rest : List α)
+    (hlen1 : outer.length = 1) (hlen2 : inner.length = rest.length)
+    (hok : NamesOk [fName] ((uncurryParams cfg outer inner).1 ++ (uncurryParams cfg outer inner).2)) :
+    runUncurry cfg outer inner f (a :: rest) = Spec.uncurrySpec f (a :: rest) := by
+  unfold runUncurry uncurryTm
+  have hl := length_uncurryParams cfg outer inner
+  generalize uncurryParams cfg outer inner = pr at hok hl ⊢
+  obtain ⟨o, i⟩ := pr
+  dsimp only at hok hl ⊢
+  rw [show vals (a :: rest) = vals ([a] ++ rest) from rfl,
+    uncurry_core o i 1 _ (loggingCurried f) [a] rest (by simp [hl.1, hlen1]) (by simp [hl.2, hlen2]) hok]
+  simp [loggingCurried, Spec.uncurrySpec]
+
+/-- a parameter list that is already fine is left alone by `Add` -/
+theorem effParams_of_namesOk (cfg : Cfg) (pre : Name) {ps : List Param} (h : NamesOk [fName] ps) :
+    effParams cfg [fName] pre ps = ps := by
+  have hnb : hasBlank ps = false := by
+    simp only [hasBlank, List.any_eq_false, beq_iff_eq]
+    intro p hp e
+    have := h.1 p.name (List.mem_map.2 ⟨p, hp, rfl⟩)
+    simp [usable, e] at this
+  have hnf : needsFix cfg [fName] ps = false := by
+    simp only [needsFix, Bool.or_eq_false_iff, Bool.and_eq_false_iff]
+    refine ⟨Or.inr ?_, Or.inr ?_⟩
+    · simp only [List.any_eq_false, beq_iff_eq]
+      intro p hp e
+      have := h.1 p.name (List.mem_map.2 ⟨p, hp, rfl⟩)
+      simp [usable, e] at this
+    · simp only [List.any_eq_false]
+      intro p hp
+      have := h.2.2 p.name (List.mem_map.2 ⟨p, hp, rfl⟩)
+      simpa using this
+  simp [effParams, renameBlankWith, hnb, hnf]
+
+
+
+theorem NamesOk.left {avoid : List Name} {a b : List Param} (h : NamesOk avoid (a ++ b)) : NamesOk avoid a := by
+  obtain ⟨h1, h2, h3⟩ := h
+  rw [names_append] at h1 h2 h3
+  exact ⟨fun n hn => h1 n (List.mem_append_left _ hn), (List.nodup_append.1 h2).1,
+    fun n hn => h3 n (List.mem_append_left _ hn)⟩
+
+theorem NamesOk.right {avoid : List Name} {a b : List Param} (h : NamesOk avoid (a ++ b)) : NamesOk avoid b := by
+  obtain ⟨h1, h2, h3⟩ := h
+  rw [names_append] at h1 h2 h3
+  exact ⟨fun n hn => h1 n (List.mem_append_right _ hn), (List.nodup_append.1 h2).2.1,
+    fun n hn => h3 n (List.mem_append_right _ hn)⟩
+
+theorem uncurryParams_of_namesOk (cfg : Cfg) {o i : List Param} (h : NamesOk [fName] (o ++ i)) :
+    uncurryParams cfg o i = (o, i) := by
+  unfold uncurryParams
+  simp only [effParams_of_namesOk cfg _ h.left, effParams_of_namesOk cfg _ h.right, uncurrySig]
+  rw [if_neg]
+  simp only [Bool.and_eq_true, not_and, Bool.not_eq_true, List.any_eq_false]
+  intro _ n _
+  have := List.nodup_iff_count.1 h.2.1 n
+  simp only [decide_eq_false_iff_not]
+  intro _; omega
+
+theorem runUncurryCurry_eq {α} (cfg : Cfg) (ps : List Param) (f : List α → List α) (a : α) (rest : List α)
+    (hlen : ps.length = rest.length + 1)
+    (hok : NamesOk [fName] (effParams cfg [fName] paramPrefix ps)) :
+    runUncurryCurry cfg ps f (a :: rest) = Spec.callOnce f (a :: rest) := by
+  unfold runUncurryCurry
+  have hl := length_effParams cfg [fName] paramPrefix ps
+  have hc := runCurry_eq cfg ps f a rest hlen hok
+  generalize he : effParams cfg [fName] paramPrefix ps = e at hok hl ⊢
+  match e, hl with
+  | p :: ps', hl =>
+    have hlen' : ps'.length = rest.length := by simp at hl; omega
+    simp only [currySig, List.take_succ_cons, List.take_zero, List.drop_succ_cons, List.drop_zero]
+    have hok' : NamesOk [fName] ([p] ++ ps') := hok
+    unfold uncurryTm
+    rw [uncurryParams_of_namesOk cfg hok']
+    dsimp only
+    rw [show vals (a :: rest) = vals ([a] ++ rest) from rfl,
+      uncurry_core [p] ps' 1 _ (curried cfg ps f) [a] rest rfl hlen' hok']
+    simpa [curried, Spec.currySpec] using hc
+  | [], hl => simp at hl; omega
+
+
+
+theorem length_tupleParams (ts : List Nat) : (tupleParams ts).length = ts.length := by
+  simp [tupleParams, length_positionalFrom]
+
+theorem runTuple_eq {α} (ts : List Nat) (args : List α) (hlen : ts.length = args.length) :
+    runTuple ts args = Spec.tupleSpec args := by
+  unfold runTuple tupleTm
+  have hl : (tupleParams ts).length = args.length := by rw [length_tupleParams, hlen]
+  have hok : NamesOk [] (tupleParams ts) := namesOk_positional (by simp [vPrefix]) (by simp) _ 0
+  rw [eval_lam _ _ _ _ _ (by simp [binders, vals, hl]), eval_lam _ _ _ _ _ rfl, bindG_binders]
+  have hln : (names (tupleParams ts)).length ≤ args.length := by simp [names, hl]
+  have henv : (bindG ([] : List Binder) ([] : List (RV α))) ++
+      ((liftKV ((names (tupleParams ts)).zip args)).reverse ++ [])
+      = (liftKV ((names (tupleParams ts)).zip args)).reverse := by simp [bindG]
+  rw [henv]
+  have hnd : (((liftKV ((names (tupleParams ts)).zip args)).reverse).map Prod.fst).Nodup := by
+    rw [List.map_reverse, keys_liftKV, List.map_fst_zip hln]
+    exact (List.reverse_perm _).nodup_iff.2 hok.2.1
+  have hb : Bound ((liftKV ((names (tupleParams ts)).zip args)).reverse) ((names (tupleParams ts)).zip args) :=
+    fun n a hm => ⟨hok.1 n (List.of_mem_zip hm).1, List.mem_reverse.2 (mem_liftKV hm)⟩
+  have := lookupVals_of_bound _ hnd _ hb
+  rw [List.map_fst_zip hln, List.map_snd_zip (by simp [names, hl])] at this
+  simp [eval, this, Spec.tupleSpec]
+
+
+
+theorem genName_param_ne_inner (i j : Nat) : genName paramPrefix i ≠ genName innerPrefix j := by
+  intro h
+  simp only [genName, paramPrefix, innerPrefix, List.cons_append, List.cons.injEq] at h
+  exact absurd h.1 (by decide)
+
+theorem namesOk_append {avoid : List Name} {a b : List Param} (ha : NamesOk avoid a) (hb : NamesOk avoid b)
+    (hd : ∀ n ∈ names a, n ∉ names b) : NamesOk avoid (a ++ b) := by
+  refine ⟨fun n hn => ?_, ?_, fun n hn => ?_⟩
+  · rw [names_append] at hn
+    rcases List.mem_append.1 hn with h | h
+    · exact ha.1 n h
+    · exact hb.1 n h
+  · rw [names_append]
+    exact List.nodup_append.2 ⟨ha.2.1, hb.2.1, fun x hx y hy e => hd x hx (e ▸ hy)⟩
+  · rw [names_append] at hn
+    rcases List.mem_append.1 hn with h | h
+    · exact ha.2.2 n h
+    · exact hb.2.2 n h
+
+/-- the side condition of uncurry: both lists fine on their own, and no clash between the (renamed)
+outer and inner names unless that is repaired -/
+theorem uncurryParams_namesOk (cfg : Cfg) (outer inner : List Param)
+    (hvo : ValidSig outer) (hvi : ValidSig inner)
+    (hso : Side cfg [fName] outer) (hsi : Side cfg [fName] inner)
+    (hx : cfg.crossFixed = true ∨
+      ∀ n ∈ names (effParams cfg [fName] paramPrefix outer), n ∉ names (effParams cfg [fName] innerPrefix inner)) :
+    NamesOk [fName] ((uncurryParams cfg outer inner).1 ++ (uncurryParams cfg outer inner).2) := by
+  have hf1 : ∀ n ∈ [fName], n.length ≤ paramPrefix.length := by simp [fName, paramPrefix]
+  have hf2 : ∀ n ∈ [fName], n.length ≤ innerPrefix.length := by simp [fName, innerPrefix]
+  have ho := effParams_namesOk cfg (pre := paramPrefix) (by simp [paramPrefix]) hf1 outer hvo hso
+  have hi := effParams_namesOk cfg (pre := innerPrefix) (by simp [innerPrefix]) hf2 inner hvi hsi
+  unfold uncurryParams
+  dsimp only
+  split
+  · rename_i hc
+    dsimp only
+    refine namesOk_append (namesOk_positional (by simp [paramPrefix]) hf1 _ 0)
+      (namesOk_positional (by simp [innerPrefix]) hf2 _ 0) (fun n hn hm => ?_)
+    obtain ⟨i, _, e1⟩ := mem_names_positionalFrom _ _ _ _ hn
+    obtain ⟨j, _, e2⟩ := mem_names_positionalFrom _ _ _ _ hm
+    exact genName_param_ne_inner i j (e1 ▸ e2)
+  · rename_i hc
+    dsimp only
+    refine namesOk_append ho hi (fun n hn hm => ?_)
+    rcases hx with hx | hx
+    · apply hc
+      simp only [hx, Bool.true_and, List.any_eq_true, Bool.and_eq_true, bne_iff_ne, ne_eq, decide_eq_true_eq]
+      have hu := ho.1 n hn
+      simp only [usable, Bool.and_eq_true, bne_iff_ne, ne_eq] at hu
+      refine ⟨n, ?_, ⟨hu.1, hu.2⟩, ?_⟩
+      · simp only [uncurrySig, names_append]; exact List.mem_append_left _ hn
+      · simp only [uncurrySig, names_append, List.count_append]
+        have h1 : 0 < List.count n (names (effParams cfg [fName] paramPrefix outer)) := List.count_pos_iff.2 hn
+        have h2 : 0 < List.count n (names (effParams cfg [fName] innerPrefix inner)) := List.count_pos_iff.2 hm
+        omega
+    · exact hx n hn hm
+
+
 end Goderive.Plumb
+
+namespace Goderive.ErrChain
+open Goderive Goderive.Spec
+
+/-- `composeSpec` for a chain that starts at stage number `i` -/
+def composeSpecFrom {V E} (zeros : List V) (i : Nat) (stages : List (Stage V E)) (args : List V) : Result V E :=
+  let es := errors stages args
+  let k := (es.takeWhile Option.isNone).length
+  match es[k]? with
+  | some (some e) => { res := zeros, err := some e, log := indexFrom i ((inputs stages args).take (k + 1)) }
+  | _ => { res := finalOut stages args, err := none, log := indexFrom i (inputs stages args) }
+
+theorem composeFrom_eq {V E} (zeros : List V) : ∀ (stages : List (Stage V E)) (i : Nat) (args : List V) (log : Log V),
+    composeFrom zeros i stages args log =
+      { res := (composeSpecFrom zeros i stages args).res, err := (composeSpecFrom zeros i stages args).err,
+        log := log ++ (composeSpecFrom zeros i stages args).log }
+  | [], i, args, log => by
+    simp [composeFrom, composeSpecFrom, errors, inputs, finalOut, indexFrom]
+  | s :: rest, i, args, log => by
+    have ih := composeFrom_eq zeros rest (i + 1)
+    cases h : s.run args with
+    | mk next err =>
+      cases err with
+      | some e =>
+        simp [composeFrom, h, composeSpecFrom, errors, inputs, indexFrom]
+      | none =>
+        simp only [composeFrom, h, ih]
+        simp only [composeSpecFrom, errors, inputs, finalOut, h, List.takeWhile_cons, Option.isNone_none,
+          if_true, List.length_cons, List.getElem?_cons_succ, List.take_succ_cons, indexFrom]
+        split <;> simp [List.append_assoc]
+
+theorem compose_eq_spec {V E} (zeros : List V) (stages : List (Stage V E)) (args : List V) :
+    compose zeros stages args = composeSpec zeros stages args := by
+  simp only [compose, composeFrom_eq, List.nil_append]
+  rfl
+
+end Goderive.ErrChain
+
+namespace Goderive.ErrChain
+open Goderive Goderive.Spec
+
+/-- `traverseSpec` for a loop that is at index `i` with the results so far in `out` -/
+def traverseSpecFrom {V E} (f : V → V × Option E) (i : Nat) (list out : List V) : TResult V E :=
+  let k := (list.takeWhile fun x => (f x).2.isNone).length
+  match list[k]? with
+  | some x => { out := none, err := (f x).2, log := indexFrom i ((list.take (k + 1)).map fun x => [x]) }
+  | none => { out := some (out ++ list.map fun x => (f x).1), err := none,
+              log := indexFrom i (list.map fun x => [x]) }
+
+theorem traverseFrom_eq {V E} (f : V → V × Option E) : ∀ (list : List V) (i : Nat) (out : List V) (log : Log V),
+    traverseFrom f i list out log =
+      { out := (traverseSpecFrom f i list out).out, err := (traverseSpecFrom f i list out).err,
+        log := log ++ (traverseSpecFrom f i list out).log }
+  | [], i, out, log => by simp [traverseFrom, traverseSpecFrom, indexFrom]
+  | x :: rest, i, out, log => by
+    have ih := traverseFrom_eq f rest (i + 1)
+    cases h : f x with
+    | mk y err =>
+      cases err with
+      | some e => simp [traverseFrom, h, traverseSpecFrom, indexFrom]
+      | none =>
+        simp only [traverseFrom, h, ih]
+        simp only [traverseSpecFrom, h, List.takeWhile_cons, Option.isNone_none, if_true, List.length_cons,
+          List.getElem?_cons_succ, List.take_succ_cons, List.map_cons, indexFrom]
+        split <;> simp [List.append_assoc]
+
+theorem traverse_eq_spec {V E} (f : V → V × Option E) (list : List V) :
+    traverse f list = traverseSpec f list := by
+  simp only [traverse, traverseFrom_eq, List.nil_append]
+  rfl
+
+theorem fmapE_eq_spec {V E} (zeros : List V) (g : Stage V E) (f : List V → List V) :
+    fmapE zeros g f = fmapESpec zeros g f := by
+  unfold fmapE fmapESpec composeSpec
+  cases h : g.run [] with
+  | mk v err => cases err <;> simp [errors, inputs, finalOut, indexFrom, h]
+
+theorem joinE_eq_spec {V E} (zeros : List V) (f : Stage V E) (err : Option E) :
+    joinE zeros f err = joinESpec zeros f err := by
+  cases err <;> simp [joinE, joinESpec]
+
+theorem bindE_eq_spec {V E} (zeros : List V) (g f : Stage V E) :
+    bindE zeros g f = bindESpec zeros g f := by
+  unfold bindE bindESpec
+  cases h : g.run [] with
+  | mk v err => cases err <;> simp
+
+theorem toError_eq_spec {V E} (err : E) (f : List V → List V × Bool) (args : List V) :
+    toError err f args = toErrorSpec err f args := by
+  unfold toError toErrorSpec
+  cases h : f args with
+  | mk outs ok => cases ok <;> simp
+
+end Goderive.ErrChain
+
+namespace Goderive.ErrChain
+open Goderive Goderive.Spec
+
+/-- types whose zero value is written `nil` -/
+def nilable : Ty → Bool
+  | .ptr _ | .slice _ | .map _ _ | .chan _ | .func | .iface => true
+  | _ => false
+
+def isBasic : Ty → Bool
+  | .basic _ => true
+  | _ => false
+
+/-- the types for which `derive.Zero` is right: unnamed basic types, and everything whose underlying
+type is a pointer, slice, map, channel, function or interface -/
+def ZeroSupported (env : Env) (T : Ty) : Prop :=
+  nilable (env.under T) = true ∨ (isBasic T = true)
+
+theorem zero_ok_of_supported (env : Env) (T : Ty) (h : ZeroSupported env T) : ZeroOk env T (zeroText T) := by
+  unfold ZeroOk
+  rcases h with h | h
+  · cases T with
+    | named i =>
+      simp only [zeroText, zeroOkB]
+      generalize env.under (.named i) = U at h ⊢
+      cases U <;> simp_all [nilable]
+    | basic b => simp [Env.under, nilable] at h
+    | _ => simp_all [Env.under, nilable, zeroText, zeroOkB]
+  · cases T with
+    | basic b => cases b <;> simp [zeroText, zeroOkB, Env.under]
+    | _ => simp [isBasic] at h
+
+/-- a repaired `Zero` is right for every proper type -/
+theorem zero_ok_fixed (env : Env) (T : Ty)
+    (h : match env.under T with | .fnil | .fcons _ _ | .named _ => False | _ => True) :
+    ZeroOk env T (fixedZero env T) := by
+  unfold ZeroOk fixedZero zeroOkB
+  generalize env.under T = U at h ⊢
+  cases U with
+  | basic b => cases b <;> simp
+  | _ => simp_all
+
+theorem indexFrom_fst {V} : ∀ (l : List (List V)) (i : Nat), (indexFrom i l).map Prod.fst = List.range' i l.length
+  | [], _ => rfl
+  | _ :: r, i => by simp [indexFrom, indexFrom_fst r (i + 1), List.range'_succ]
+
+end Goderive.ErrChain
